@@ -27,6 +27,7 @@ class Ob:
     funcs: List[str] = field(default_factory=list)
     twin: bool = True
     raises: str = ""  # exceptions that are legitimate outcomes (never used to hide crashes)
+    skip_kf: List[str] = field(default_factory=list)  # not run at all while one of these findings is open (whole cell is the finding)
 
 
 @dataclass
